@@ -543,7 +543,8 @@ func runC11(e *env) {
 			}
 			got[fmt.Sprintf("%d|%s|%s|%s|%s", pe.id, pe.v, pe.msg.Ctxt, pe.msg.Id, pe.msg.IdPlural)]++
 		}
-		if !c11SameCounts(want, got) {
+		// as sets: an extractor that writes one entry per message id instead of one per use lists the same messages
+		if !c11SameKeys(want, got) {
 			c11Fail(e, hx.Violation{Kind: "oracle", What: "the extracted POT does not list the bundle's messages (id, var, msgctxt, msgid, msgid_plural)", Case: rp,
 				Expected: c11Keys(want), Observed: c11Keys(got)}, map[bool]string{true: "empty-plural-case"}[hasEmptyCase])
 		}
@@ -929,12 +930,12 @@ func c11Head(s string, n int) string {
 	return s
 }
 
-func c11SameCounts(a, b map[string]int) bool {
+func c11SameKeys(a, b map[string]int) bool {
 	if len(a) != len(b) {
 		return false
 	}
-	for k, v := range a {
-		if b[k] != v {
+	for k := range a {
+		if b[k] == 0 {
 			return false
 		}
 	}
